@@ -66,6 +66,10 @@ func tokClass(t token.TokenType) string {
 		return "unknown"
 	case t == token.NEWLINE:
 		return "newline"
+	case t == token.WHITESPACE:
+		return "whitespace"
+	case t == token.START_TAG || t == token.END_TAG:
+		return "php-tag"
 	case t == token.COMMENT || t == token.MULTILINE_COMMENT:
 		return "comment"
 	}
